@@ -7,7 +7,8 @@
      ExponentiatedGradient: the same flag + the constructor parameter `nu`, which fit OVERWRITES
                             when it is None (exponentiated_gradient.py: `self.nu = ...`)
      CorrelationRemover   : _n_features_in_ (a refit with another width raises ValueError)
-     adversarial          : classes_ / backendEngine_ / warm_start (re-initialisation rule)
+     adversarial          : classes_ / backendEngine_ / warm_start (re-initialisation rule) and, when the
+                            networks are given as torch Modules, those objects themselves (trained in place)
 
    Operations: Fit D | Predict | Pickle (round trip, continue with the restored object) |
    Clone (sklearn.clone, continue with the clone).  Training is an abstract deterministic
@@ -241,37 +242,47 @@ Arguments same_width {D}.
 Section Adv.
   Variables (P D M : Type).
   Variable ws : P -> bool.                     (* the warm_start parameter *)
-  Variable init_net : P -> D -> M.             (* seeded initialisation for the shapes of D *)
+  Variable user_net : P -> option M.           (* predictor/adversary given as torch Modules (their state as
+                                                  constructed by the user); None = given as lists of layer sizes *)
+  Variable init_net : P -> D -> M.             (* seeded initialisation for the shapes of D (list specification) *)
   Variable train_from : P -> M -> D -> M.      (* epochs x batches of train_step from a state *)
   Variable fixed : bool.
 
-  Record ast : Type := mkA { a_par : P; a_net : option M; a_classes : bool }.
+  (* a_mod: current state of the user-supplied Module objects.  BackendEngine.__init_model__ returns the
+     parameter object itself, so fit trains it IN PLACE; sklearn.clone deep-copies it, trained weights included *)
+  Record ast : Type := mkA { a_par : P; a_net : option M; a_classes : bool; a_mod : option M }.
 
-  Definition a_init (p : P) : ast := mkA p None false.
-  Definition a_ok (s : ast) : obs P M := mkObs true (a_par s) (a_net s) None.
-  Definition a_raise (s : ast) (e : exn) : obs P M := mkObs false (a_par s) (a_net s) (Some e).
+  Definition a_init (p : P) : ast := mkA p None false (user_net p).
+  Definition a_params (s : ast) : P * option M := (a_par s, a_mod s).
+  Definition a_ok (s : ast) : obs (P * option M) M := mkObs true (a_params s) (a_net s) None.
+  Definition a_raise (s : ast) (e : exn) : obs (P * option M) M :=
+    mkObs false (a_params s) (a_net s) (Some e).
 
-  Definition a_step (s : ast) (o : op D) : ast * obs P M :=
+  Definition a_step (s : ast) (o : op D) : ast * obs (P * option M) M :=
     match o with
     | Fit d =>
         let first := negb (a_classes s) || (fixed && negb (ws (a_par s))) in
-        let start := if first then init_net (a_par s) d
+        let start := if first then match a_mod s with Some m => m | None => init_net (a_par s) d end
                      else match a_net s with Some m => m | None => init_net (a_par s) d end in
-        let s' := mkA (a_par s) (Some (train_from (a_par s) start d)) true in
+        let trained := train_from (a_par s) start d in
+        let s' := mkA (a_par s) (Some trained) true
+                      (match a_mod s with Some _ => Some trained | None => None end) in
         (s', a_ok s')
     | Predict => match a_net s with
                  | Some _ => (s, a_ok s)
                  | None => (s, a_raise s NotFitted)
                  end
     | Pickle => (s, a_ok s)   (* the torch engine is not picklable: never generated for this family *)
-    | Clone => let s' := a_init (a_par s) in (s', a_ok s')
+    | Clone => let s' := mkA (a_par s) None false (a_mod s) in (s', a_ok s')
     end.
 End Adv.
 Arguments mkA {P M}.
 Arguments a_par {P M}.
 Arguments a_net {P M}.
 Arguments a_classes {P M}.
+Arguments a_mod {P M}.
 Arguments a_init {P M}.
+Arguments a_params {P M}.
 Arguments a_step {P D M}.
 
 Definition adv_step {P D M} (ws : P -> bool) (init_net : P -> D -> M) (train_from : P -> M -> D -> M) :=
@@ -290,9 +301,12 @@ Definition sym_nu_of (p d : Z) : Z * Z := (1, d).
 Definition sym_train_eg (p : Z) (v : Z * Z) (d : Z) : Z * (Z * Z) * Z := (p, v, d).
 
 (* adversarial: (data the networks were initialised for, data sets trained on since) *)
-Definition sym_init_net (p : Z * bool) (d : Z) : Z * list Z := (d, []).
-Definition sym_train_from (p : Z * bool) (m : Z * list Z) (d : Z) : Z * list Z := (fst m, snd m ++ [d]).
-Definition sym_ws (p : Z * bool) : bool := snd p.
+(* parameters: (code, (warm_start, networks given as user Modules)) *)
+Definition sym_init_net (p : Z * (bool * bool)) (d : Z) : Z * list Z := (d, []).
+Definition sym_train_from (p : Z * (bool * bool)) (m : Z * list Z) (d : Z) : Z * list Z := (fst m, snd m ++ [d]).
+Definition sym_ws (p : Z * (bool * bool)) : bool := fst (snd p).
+Definition sym_user_net (p : Z * (bool * bool)) : option (Z * list Z) :=
+  if snd (snd p) then Some (0, []) else None.
 
 Definition sym_width (ws : list Z) (d : Z) : Z := nth (Z.to_nat d) ws 0.
 
@@ -322,9 +336,11 @@ Definition run_corr (p : Z) (ws : list Z) (hs : list (list (op Z))) : list Z :=
   enc_list (fun h => enc_list (enc_obs enc_z enc_zz)
                        (trace (c_step (sym_width ws) sym_train) (c_init p) h)) hs.
 
-Definition enc_adv_params (x : Z * bool) : list Z := fst x :: enc_bool (snd x).
 Definition enc_adv_model (m : Z * list Z) : list Z := fst m :: enc_list enc_z (snd m).
+Definition enc_adv_params (x : (Z * (bool * bool)) * option (Z * list Z)) : list Z :=
+  fst (fst x) :: enc_bool (fst (snd (fst x))) ++ enc_bool (snd (snd (fst x))) ++ enc_opt enc_adv_model (snd x).
 
-Definition run_adv (p : Z * bool) (hs : list (list (op Z))) : list Z :=
+Definition run_adv (p : Z * (bool * bool)) (hs : list (list (op Z))) : list Z :=
   enc_list (fun h => enc_list (enc_obs enc_adv_params enc_adv_model)
-                       (trace (adv_step sym_ws sym_init_net sym_train_from) (a_init p) h)) hs.
+                       (trace (adv_step sym_ws sym_init_net sym_train_from)
+                              (a_init sym_user_net p) h)) hs.
